@@ -255,10 +255,78 @@ def measure(repo):
             "Definition dispatch_gen (len : nat) : dispatch :=\n  match len with\n" + "\n".join(lines) + "\n  | _ => DErr PyKeyError\n  end.\n")
 
 
+MOL = os.path.join("qcelemental", "models", "molecule.py")
+
+
+def _defaults_of(fn):
+    """python parameter name -> default expression (ast), for positional and keyword-only parameters"""
+    out = {}
+    pos = fn.args.args
+    for a, d in zip(pos[len(pos) - len(fn.args.defaults):], fn.args.defaults):
+        out[a.arg] = d
+    for a, d in zip(fn.args.kwonlyargs, fn.args.kw_defaults):
+        if d is not None:
+            out[a.arg] = d
+    return out
+
+
+def _bool_default(src, fn, name):
+    d = _defaults_of(fn).get(name)
+    if not (isinstance(d, ast.Constant) and isinstance(d.value, bool)):
+        raise TranslateError(f"{src}: {fn.name}: parameter `{name}` has no literal True/False default")
+    return "true" if d.value else "false"
+
+
+def defaults(repo):
+    """the default values of the keyword arguments of the public entry points, and Molecule.measure's one-line body"""
+    ca, cd_, mc = _fn(repo, MISC, "compute_angle"), _fn(repo, MISC, "compute_dihedral"), _fn(repo, MISC, "measure_coordinates")
+    gc = _fn(repo, CONN, "guess_connectivity")
+    path = os.path.join(repo, MOL)
+    try:
+        with open(path) as fh:
+            tree = ast.parse(fh.read())
+    except (OSError, SyntaxError) as e:
+        raise TranslateError(f"cannot read/parse {path}: {e}")
+    cls = [n for n in tree.body if isinstance(n, ast.ClassDef) and n.name == "Molecule"]
+    mm = [n for n in (cls[0].body if len(cls) == 1 else []) if isinstance(n, ast.FunctionDef) and n.name == "measure"]
+    if len(mm) != 1:
+        raise TranslateError(f"{MOL}: Molecule.measure not found")
+    mm = mm[0]
+    if [a.arg for a in mm.args.args] != ["self", "measurements"] or [a.arg for a in mm.args.kwonlyargs] != ["degrees"]:
+        raise TranslateError(f"{MOL}: unexpected signature of Molecule.measure")
+    b = _body(mm)
+    if len(b) != 1 or ast.unparse(b[0]) != "return measure_coordinates(self.geometry, measurements, degrees=degrees)":
+        raise TranslateError(f"{MOL}: Molecule.measure is not `return measure_coordinates(self.geometry, measurements, degrees=degrees)`")
+    if [a.arg for a in mc.args.args] != ["coordinates", "measurements", "degrees"]:
+        raise TranslateError(f"{MISC}: unexpected signature of measure_coordinates")
+    dd = _defaults_of(gc)
+    thr = dd.get("threshold")
+    if not (isinstance(thr, ast.Constant) and isinstance(thr.value, float) and 0 < thr.value < 100):
+        raise TranslateError(f"{CONN}: guess_connectivity: `threshold` has no literal float default")
+    from fractions import Fraction
+    q = Fraction(repr(thr.value))
+    dc = dd.get("default_connectivity")
+    if not (isinstance(dc, ast.Constant) and dc.value is None):
+        raise TranslateError(f"{CONN}: guess_connectivity: default of `default_connectivity` is not None")
+    return ("(* default values of the keyword arguments (read from the signatures) *)\n"
+            f"Definition compute_angle_degrees_default : bool := {_bool_default(MISC, ca, 'degrees')}.\n"
+            f"Definition compute_dihedral_degrees_default : bool := {_bool_default(MISC, cd_, 'degrees')}.\n"
+            f"Definition measure_coordinates_degrees_default : bool := {_bool_default(MISC, mc, 'degrees')}.\n"
+            f"Definition molecule_measure_degrees_default : bool := {_bool_default(MOL, mm, 'degrees')}.\n"
+            f"Definition guess_connectivity_threshold_default : Z * positive := ({q.numerator}%Z, {q.denominator}%positive).\n"
+            "(* a call with or without the keyword: None = keyword omitted *)\n"
+            "Definition kw_or (dflt : bool) (given : option bool) : bool := match given with Some d => d | None => dflt end.\n"
+            "Definition measure_coordinates_call (K : Fops) (coordinates : list (vec3 K)) (measurements : list (list Z)) (degrees : option bool) :=\n"
+            "  measure K coordinates (kw_or measure_coordinates_degrees_default degrees) measurements.\n"
+            "(* Molecule.measure: return measure_coordinates(self.geometry, measurements, degrees=degrees) *)\n"
+            "Definition molecule_measure_call (K : Fops) (self_geometry : list (vec3 K)) (measurements : list (list Z)) (degrees : option bool) :=\n"
+            "  measure_coordinates_call K self_geometry measurements (Some (kw_or molecule_measure_degrees_default degrees)).\n")
+
+
 def generate(repo, out_path):
     text = ("(** GENERATED by harness/translate/geo3glue.py from molutil/connectivity.py and util/misc.py — do not edit. *)\n"
             "From Coq Require Import List Bool ZArith.\n"
             "Require Import QV.Common.Outcome QV.Common.Geo3 QV.Common.Geo3Glue QV.Model.Geometry.\nImport ListNotations.\n\n"
-            "Section Gen.\nVariable K : Fops.\n\n" + connectivity(repo) + "\n" + distance_matrix(repo) + "\nEnd Gen.\n\n" + measure(repo))
+            "Section Gen.\nVariable K : Fops.\n\n" + connectivity(repo) + "\n" + distance_matrix(repo) + "\nEnd Gen.\n\n" + measure(repo) + "\n" + defaults(repo))
     coqrun.write_if_changed(out_path, text)
     return text
